@@ -19,6 +19,7 @@ var c01 = &modelCheck{
 		MinPlants:    0, MaxPlants: 3,
 		MinMutants: 1, MaxMutants: 5,
 		AllMinusThenPlus: true,
+		PkgGuard:         8,
 	},
 	NonTrivial: func(cs *modelCase, v *verdict) bool { return v.Sites >= 1 && v.NearMisses >= 1 },
 }
